@@ -504,7 +504,12 @@ func runC10(c *an.Ctx) {
 		case name == "context.WithTimeout":
 			t, r := ctxChain(call.Call.Args[0], depth+1)
 			return t || ht.Of(call.Call.Args[1]) == "p0.Params.RequestTimeout", r
-		case name == "context.WithCancel" || name == "context.WithDeadline" || name == "context.WithValue":
+		case name == "context.WithDeadline" || name == "context.WithDeadlineCause":
+			// WithTimeout(p, d) is WithDeadline(p, time.Now().Add(d))
+			t, r := ctxChain(call.Call.Args[0], depth+1)
+			dl := an.Stable(ht.Of(call.Call.Args[1]))
+			return t || (strings.Contains(dl, "time.Now") && strings.Contains(dl, "Add") && strings.Contains(dl, "p0.Params.RequestTimeout")), r
+		case name == "context.WithCancel" || name == "context.WithValue" || name == "context.WithCancelCause":
 			return ctxChain(call.Call.Args[0], depth+1)
 		case call.Call.IsInvoke() && call.Call.Method.Name() == "Start" && strings.HasSuffix(call.Call.Value.Type().String(), "trace.Tracer"):
 			return ctxChain(call.Call.Args[0], depth+1)
@@ -544,7 +549,7 @@ func runC10(c *an.Ctx) {
 			okR := false
 			detail := "result " + t.Of(r.Results[0])
 			if len(els) == 1 {
-				if ex, ok := els[0].(*ssa.Extract); ok && ex.Index == 0 {
+				if ex, ok := ff.UnphiAt(ff.Unphi(els[0]), r).(*ssa.Extract); ok && ex.Index == 0 {
 					if call, ok := ex.Tuple.(*ssa.Call); ok && call.Call.IsInvoke() && call.Call.Method.Name() == method &&
 						t.Of(call.Call.Value) == "p0.store" && argOK(t, call) {
 						okR = ff.AtInstr(r).Has(an.EQ(t.Of(call)+"#1", "nil"))
